@@ -9,7 +9,7 @@ mod piemodel;
 mod fsmodel;
 
 #[derive(Clone, Copy, Debug, PartialEq)]
-enum Op { AddNode, AddEdge(usize, usize), RemoveEdge(usize, usize), RemoveOut(usize), RemoveNode(usize) }
+enum Op { AddNode, AddEdge(usize, usize), RemoveEdge(usize, usize), RemoveOut(usize), RemoveNode(usize), /** start over with a new DAG instance (same thread) */ New }
 
 /// reference model: what the contracts say
 #[derive(Default, Clone)]
@@ -176,6 +176,42 @@ fn apply(dag: &mut DAG<u32, u32>, m: &mut Model, nodes: &mut Vec<Node>, op: Op, 
         m.children[a].clear(); m.parents[a].clear(); m.present[a] = false;
       }
     }
+    Op::New => {}
+  }
+  Ok(())
+}
+
+/// what a caller can observe of the LAST instance of `ops` (instances are separated by `Op::New`): the result of every operation and
+/// the rank of every node after it.  No oracle: used to compare two runs of the same sequence (C16).
+fn trace_last_instance(ops: &[Op]) -> Vec<String> {
+  let mut dag: DAG<u32, u32> = DAG::new(); let mut nodes: Vec<Node> = vec![]; let mut out = vec![]; let mut base = 0usize;
+  for (i, op) in ops.iter().enumerate() {
+    if *op == Op::New { base = i + 1; }
+    let r = std::panic::catch_unwind(std::panic::AssertUnwindSafe(|| {
+      match *op {
+        Op::New => { dag = DAG::new(); nodes.clear(); out.clear(); String::new() }
+        Op::AddNode => { let n = dag.add_node(nodes.len() as u32); nodes.push(n); "node".to_string() }
+        Op::AddEdge(a, b) if a < nodes.len() && b < nodes.len() => format!("{:?}", dag.add_edge(nodes[a], nodes[b], 100 + (i - base) as u32)),
+        Op::RemoveEdge(a, b) if a < nodes.len() && b < nodes.len() => format!("{:?}", dag.remove_edge(nodes[a], nodes[b])),
+        Op::RemoveOut(a) if a < nodes.len() => format!("{:?}", dag.remove_outgoing_edges_of_node(nodes[a]).map(|v| v.into_iter().map(|(n, d)| (nodes.iter().position(|x| *x == n), d)).collect::<Vec<_>>())),
+        Op::RemoveNode(a) if a < nodes.len() => format!("{:?}", dag.remove_node(nodes[a])),
+        _ => "skipped".to_string(),
+      }
+    }));
+    match r { Ok(x) => { if *op != Op::New { out.push(format!("{} ranks {:?}", x, ranks(&dag, &nodes))); } }, Err(_) => { out.push("panic".to_string()); break; } }
+  }
+  out
+}
+/// C16 at graph level: the last instance of `ops` behaves the same on a fresh thread alone and after the earlier instances ran on
+/// the same thread (no state may leak between instances)
+fn det_check(ops: &[Op]) -> Result<(), Fail> {
+  let last: Vec<Op> = ops.rsplit(|o| *o == Op::New).next().unwrap_or(&[]).to_vec();
+  let all = ops.to_vec(); let alone = last.clone();
+  let t_after = std::thread::spawn(move || trace_last_instance(&all)).join().unwrap_or_else(|_| vec!["panic".to_string()]);
+  let t_alone = std::thread::spawn(move || trace_last_instance(&alone)).join().unwrap_or_else(|_| vec!["panic".to_string()]);
+  if t_after != t_alone {
+    let i = t_after.iter().zip(t_alone.iter()).position(|(a, b)| a != b).unwrap_or(t_after.len().min(t_alone.len()));
+    return Err(Fail { prop: "C16", ob: "C16.bounded.graph_behaviour_independent_of_earlier_instances", what: format!("operation #{} of the last instance {}: alone it gives `{}`, after the earlier instances on the same thread `{}`", i, ops_json(&last), t_alone.get(i).cloned().unwrap_or_default(), t_after.get(i).cloned().unwrap_or_default()) });
   }
   Ok(())
 }
@@ -183,7 +219,8 @@ fn apply(dag: &mut DAG<u32, u32>, m: &mut Model, nodes: &mut Vec<Node>, op: Op, 
 fn run(ops: &[Op]) -> Result<(), (usize, Fail)> {
   let mut dag: DAG<u32, u32> = DAG::new(); let mut m = Model::default(); let mut nodes = vec![];
   for (i, op) in ops.iter().enumerate() {
-    let valid = match *op { Op::AddNode => true, Op::AddEdge(a, b) | Op::RemoveEdge(a, b) => a < nodes.len() && b < nodes.len(), Op::RemoveOut(a) | Op::RemoveNode(a) => a < nodes.len() };
+    if *op == Op::New { dag = DAG::new(); m = Model::default(); nodes = vec![]; continue; }
+    let valid = match *op { Op::AddNode => true, Op::AddEdge(a, b) | Op::RemoveEdge(a, b) => a < nodes.len() && b < nodes.len(), Op::RemoveOut(a) | Op::RemoveNode(a) => a < nodes.len(), Op::New => true };
     if !valid { continue; }
     apply(&mut dag, &mut m, &mut nodes, *op, 100 + i as u32).map_err(|f| (i, f))?;
     check_state(&dag, &m, &nodes).map_err(|f| (i, f))?;
@@ -192,14 +229,14 @@ fn run(ops: &[Op]) -> Result<(), (usize, Fail)> {
 }
 
 fn ops_json(ops: &[Op]) -> String {
-  let v: Vec<String> = ops.iter().map(|o| match o { Op::AddNode => "\"N\"".to_string(), Op::AddEdge(a, b) => format!("\"E{},{}\"", a, b), Op::RemoveEdge(a, b) => format!("\"e{},{}\"", a, b), Op::RemoveOut(a) => format!("\"o{}\"", a), Op::RemoveNode(a) => format!("\"n{}\"", a) }).collect();
+  let v: Vec<String> = ops.iter().map(|o| match o { Op::AddNode => "\"N\"".to_string(), Op::AddEdge(a, b) => format!("\"E{},{}\"", a, b), Op::RemoveEdge(a, b) => format!("\"e{},{}\"", a, b), Op::RemoveOut(a) => format!("\"o{}\"", a), Op::RemoveNode(a) => format!("\"n{}\"", a), Op::New => "\"X\"".to_string() }).collect();
   format!("[{}]", v.join(","))
 }
 fn parse_ops(s: &str) -> Vec<Op> {
   s.trim().trim_start_matches('[').trim_end_matches(']').split("\",\"").map(|t| t.trim_matches('"')).filter(|t| !t.is_empty()).map(|t| {
     let (h, rest) = t.split_at(1);
     let nums: Vec<usize> = rest.split(',').filter(|x| !x.is_empty()).map(|x| x.parse().unwrap()).collect();
-    match h { "N" => Op::AddNode, "E" => Op::AddEdge(nums[0], nums[1]), "e" => Op::RemoveEdge(nums[0], nums[1]), "o" => Op::RemoveOut(nums[0]), "n" => Op::RemoveNode(nums[0]), _ => panic!("bad op {}", t) }
+    match h { "N" => Op::AddNode, "E" => Op::AddEdge(nums[0], nums[1]), "e" => Op::RemoveEdge(nums[0], nums[1]), "o" => Op::RemoveOut(nums[0]), "n" => Op::RemoveNode(nums[0]), "X" => Op::New, _ => panic!("bad op {}", t) }
   }).collect()
 }
 
@@ -224,6 +261,8 @@ fn main() {
   if args.len() >= 2 && (args[1] == "fs" || args[1] == "fs-case") { fs_main(&args); return; }
   if args.len() >= 3 && args[1] == "replay" {
     let ops = parse_ops(&args[2]);
+    std::panic::set_hook(Box::new(|_| {}));
+    if ops.contains(&Op::New) { if let Err(f) = det_check(&ops) { report(&ops, ops.len() - 1, &f); std::process::exit(1); } }
     match run(&ops) { Ok(()) => { println!("{{\"violation\":false,\"ops\":{}}}", ops_json(&ops)); }, Err((at, f)) => { report(&ops, at, &f); std::process::exit(1); } }
     return;
   }
@@ -244,6 +283,8 @@ fn main() {
   }
   // random: longer sequences with interleaved add_node
   let mut rng = Rng(0x9E3779B97F4A7C15 ^ (seed as u64).wrapping_mul(0xD1342543DE82EF95) | 1);
+  let mut earlier: Vec<Op> = vec![];
+  let quiet = std::panic::take_hook(); std::panic::set_hook(Box::new(|_| {}));
   for _ in 0..random {
     if found >= 5 { break; }
     let mut ops = vec![]; let mut n = 0usize;
@@ -257,7 +298,13 @@ fn main() {
     }
     runs += 1; nontrivial += 1;
     if let Err((at, f)) = run(&ops) { report(&ops, at, &f); found += 1; }
+    // C16: this sequence alone vs. after the two previous random sequences on one thread
+    let mut both = earlier.clone(); both.push(Op::New); both.extend(ops.iter().cloned());
+    if !earlier.is_empty() { if let Err(f) = det_check(&both) { report(&both, both.len() - 1, &f); found += 1; } }
+    let cut = earlier.iter().rposition(|o| *o == Op::New).map(|p| p + 1).unwrap_or(0);
+    earlier = earlier[cut..].to_vec(); if !earlier.is_empty() { earlier.push(Op::New); } earlier.extend(ops.iter().cloned());
   }
+  std::panic::set_hook(quiet);
   println!("{{\"summary\":true,\"k\":{},\"l\":{},\"random\":{},\"random_len\":{},\"seed\":{},\"sequences\":{},\"nontrivial\":{},\"violations\":{},\"exhaustive_part_complete\":{}}}", k, l, random, len, seed, runs, nontrivial, found, found < 5);
   if found > 0 { std::process::exit(1); }
 }
